@@ -1046,26 +1046,25 @@ func (r *Run) conv(dst, src types.Type, x Value) Value {
 			}
 		}
 		if db, ok := ud.(*types.Basic); ok && db.Info()&types.IsString != 0 {
-			if x.S == nil && x.C < 0x80 {
-				return strLit(string(rune(x.C)))
-			}
-			if x.S != nil && x.S.Sort.Kind == 'V' {
-				sw, _ := intWidth(src)
-				if r.branch(mk("bvult", sortBool, x.S, mkBV(0x80, sw))) {
-					b := x.S
-					if sw > 8 {
-						b = mk("(_ extract 7 0)", bv(8), x.S)
-					}
-					return StrV{Segs: []Seg{{Byte: b}}}
-				}
-			}
-			panic(unsupported("string(rune) of a non-ASCII rune"))
+			sw, _ := intWidth(src)
+			return r.encodeRune(x, sw)
 		}
 	case StrV:
 		if _, ok := ud.(*types.Basic); ok {
 			return x
 		}
 		if sl, ok := ud.(*types.Slice); ok {
+			if b, ok := sl.Elem().Underlying().(*types.Basic); ok && b.Kind() == types.Int32 {
+				// []rune(s): UTF-8 decoding of the (possibly symbolic) bytes
+				bs := x.bytesTerms()
+				var data []Value
+				for i := 0; i < len(bs); {
+					t, n := r.decodeAt(bs, i)
+					data = append(data, runeVal(t))
+					i += n
+				}
+				return SliceV{Data: data}
+			}
 			if b, ok := sl.Elem().Underlying().(*types.Basic); ok && b.Kind() == types.Uint8 {
 				if x.hasAtom() {
 					return BytesOf{S: x}
@@ -1086,6 +1085,16 @@ func (r *Run) conv(dst, src types.Type, x Value) Value {
 		return x.S
 	case SliceV:
 		if b, ok := ud.(*types.Basic); ok && b.Info()&types.IsString != 0 {
+			if sl, isSl := us.(*types.Slice); isSl {
+				if eb, ok := sl.Elem().Underlying().(*types.Basic); ok && eb.Kind() == types.Int32 {
+					// string([]rune)
+					out := StrV{}
+					for _, e := range x.Data {
+						out = concatStr(out, r.encodeRune(e.(IntV), 32))
+					}
+					return out
+				}
+			}
 			var bs []*Term
 			for _, e := range x.Data {
 				bs = append(bs, e.(IntV).term(8))
@@ -1097,6 +1106,48 @@ func (r *Run) conv(dst, src types.Type, x Value) Value {
 	}
 	_ = us
 	panic(unsupported("conversion %v <- %v (%T)", dst, src, x))
+}
+
+// encodeRune: string(rune), UTF-8 encoding; a symbolic rune is split by encoded length (surrogates and values
+// above U+10FFFF encode U+FFFD, as in Go)
+func (r *Run) encodeRune(x IntV, sw int) StrV {
+	if x.S == nil {
+		v := int64(x.C)
+		if sw < 64 {
+			v = int64(int32(x.C))
+		}
+		if v < 0 || v > 0x10FFFF || (v >= 0xD800 && v <= 0xDFFF) {
+			v = 0xFFFD
+		}
+		return strLit(string(rune(v)))
+	}
+	t := x.S
+	if sw != 32 {
+		if sw < 32 {
+			t = mk(fmt.Sprintf("(_ zero_extend %d)", 32-sw), bv(32), t)
+		} else {
+			t = mk("(_ extract 31 0)", bv(32), t)
+		}
+	}
+	lt := func(v uint64) bool { return r.branch(mk("bvult", sortBool, t, mkBV(v, 32))) }
+	byteOf := func(shift uint64, mask, or uint64) Seg {
+		b := mk("bvor", bv(32), mk("bvand", bv(32), mk("bvlshr", bv(32), t, mkBV(shift, 32)), mkBV(mask, 32)), mkBV(or, 32))
+		return Seg{Byte: mk("(_ extract 7 0)", bv(8), b)}
+	}
+	switch {
+	case lt(0x80):
+		return StrV{Segs: []Seg{{Byte: mk("(_ extract 7 0)", bv(8), t)}}}
+	case lt(0x800):
+		return StrV{Segs: []Seg{byteOf(6, 0x1F, 0xC0), byteOf(0, 0x3F, 0x80)}}
+	case lt(0x10000):
+		if !lt(0xD800) && lt(0xE000) {
+			return strLit("\uFFFD")
+		}
+		return StrV{Segs: []Seg{byteOf(12, 0x0F, 0xE0), byteOf(6, 0x3F, 0x80), byteOf(0, 0x3F, 0x80)}}
+	case lt(0x110000):
+		return StrV{Segs: []Seg{byteOf(18, 0x07, 0xF0), byteOf(12, 0x3F, 0x80), byteOf(6, 0x3F, 0x80), byteOf(0, 0x3F, 0x80)}}
+	}
+	return strLit("\uFFFD")
 }
 
 func (r *Run) slice(instr *ssa.Slice, x, lo, hi, max Value) Value {
